@@ -37,6 +37,9 @@ def main(argv) -> int:
             meta = json.load(open(os.path.join(root, mid, "meta.json")))
             prop = meta["property"]
             subprocess.run(["git", "-C", scratch, "checkout", "-q", "--", "."], check=True)
+            base = "HEAD" if "baseline_commit" not in meta else meta["baseline_commit"]
+            subprocess.run(["git", "-C", scratch, "checkout", "-q", "--detach",
+                            subprocess.check_output(["git", "-C", REPO, "rev-parse", base], text=True).strip()], check=True)
             ap = subprocess.run(["git", "-C", scratch, "apply", os.path.join(root, mid, "patch.diff")],
                                 capture_output=True, text=True)
             if ap.returncode != 0:
